@@ -761,7 +761,7 @@ static void definitionIndependence(int k, int part, int nparts) {
 // were loaded"): every ordered selection of up to k blocks is concatenated into one file and loaded in its own process; what
 // each block's messages do (definition dump, encode of a probe value, decode of fixed bytes) must equal what they do when
 // their block is the only one in the file.
-struct DefBlock { const char* cls; vector<const char*> lines; vector<const char*> names; const char* circuit; };
+struct DefBlock { const char* cls; vector<const char*> lines; vector<const char*> names; const char* circuit; bool fileOnly = false; };
 static const vector<DefBlock>& defBlocks() {
   static const vector<DefBlock> B = {
     // defaults WITH a default field (prepended to the messages of the block)
@@ -779,9 +779,15 @@ static const vector<DefBlock>& defBlocks() {
     // passive/update type with a default field
     {"defaults-with-field", {"*u,bc,,,,fe,b516,,kind,,UCH", "u,,t1,,,,,10,v,,UCH"}, {"t1"}, "bc"},
     {"defaults-without-field", {"*u,bc2,,,,fe,b517,", "u,,t2,,,,,11,v,,UCH"}, {"t2"}, "bc2"},
+    // messages WITHOUT a defaults line of their own and with empty columns (no destination, ID without prefix): in a
+    // FILE OF THEIR OWN they are independent of every file loaded before (inside one file they would legitimately
+    // inherit the defaults lines above them, so they only take part in the file-wise loading)
+    {"no-defaults-own-file", {"r,room,rt,,,,b511,01,temp,,D2C"}, {"rt"}, "room", true},
+    {"no-defaults-own-file", {"w,room,wt,,,,b512,02,temp,,UCH"}, {"wt"}, "room", true},
   };
   return B;
 }
+static bool g_blocksAsFiles = false;  // every block is a file of its own (one readFromStream call per block on the same map)
 static vector<string> loadBlocksAndObserve(const vector<int>& order) {
   vector<string> out;
   errno = 0;
@@ -790,9 +796,22 @@ static vector<string> loadBlocksAndObserve(const vector<int>& order) {
   PermResolver resolver(templates);
   map->setResolver(&resolver);
   string text = "# type,circuit,name,comment,qq,zz,pbsb,id,*name,part,type,divisor/values,unit,comment\n", err;
-  for (int i : order) for (const char* l : defBlocks()[(size_t)i].lines) text += string(l) + "\n";
-  std::istringstream ms(text);
-  result_t lr = map->readFromStream(&ms, "cfg.csv", 0, false, nullptr, &err);
+  result_t lr = RESULT_OK;
+  if (g_blocksAsFiles) {
+    int fileNo = 0;
+    for (int i : order) {
+      string ft = text;
+      for (const char* l : defBlocks()[(size_t)i].lines) ft += string(l) + "\n";
+      std::istringstream fs(ft);
+      string ferr;
+      result_t fr = map->readFromStream(&fs, "cfg" + std::to_string(fileNo++) + ".csv", 0, false, nullptr, &ferr);
+      if (fr != RESULT_OK && lr == RESULT_OK) { lr = fr; err = ferr; }
+    }
+  } else {
+    for (int i : order) for (const char* l : defBlocks()[(size_t)i].lines) text += string(l) + "\n";
+    std::istringstream ms(text);
+    lr = map->readFromStream(&ms, "cfg.csv", 0, false, nullptr, &err);
+  }
   for (int i : order) {
     const DefBlock& b = defBlocks()[(size_t)i];
     std::ostringstream obs;
@@ -858,14 +877,22 @@ static vector<string> observeBlocksForked(const vector<int>& order) {
   return res;
 }
 static string blockText(size_t i) { string t; for (const char* l : defBlocks()[i].lines) { if (!t.empty()) t += " | "; t += l; } return t; }
+static void blockIndependenceMode(int k, int part, int nparts);
 static void blockIndependence(int k, int part, int nparts) {
+  g_blocksAsFiles = false;
+  blockIndependenceMode(k, part, nparts);
+  g_blocksAsFiles = true;   // the same selections with every block loaded as a file of its own, plus the blocks without defaults line
+  blockIndependenceMode(k, part, nparts);
+  g_blocksAsFiles = false;
+}
+static void blockIndependenceMode(int k, int part, int nparts) {
   size_t N = defBlocks().size();
   vector<string> alone(N);
   for (size_t i = 0; i < N; i++) {
     vector<string> o = observeBlocksForked({(int)i});
     if (o.size() != 1 || o[0].find("load:done") != 0 || o[0].find(":missing") != string::npos) {
       if (part == 0) R.violation(string("C12/config-rejected/definition-block/") + defBlocks()[i].cls, "valid definition block refused when loaded alone: " + blockText(i) + " -> " + (o.empty() ? string("child failed") : o[0].substr(0, 200)),
-                                 "k=blocks;o=" + std::to_string(i) + ";x=" + std::to_string(i) + ";load=1");
+                                 "k=blocks;o=" + std::to_string(i) + ";x=" + std::to_string(i) + ";load=1" + (g_blocksAsFiles ? ";files=1" : ""));
       continue;
     }
     if (part == 0) R.count("definition_blocks_loaded_alone");
@@ -885,15 +912,16 @@ static void blockIndependence(int k, int part, int nparts) {
         if (got != alone[(size_t)cur[j]]) {
           // which kind of block precedes it decides the class: that is where a stale default comes from
           string before = j > 0 ? defBlocks()[(size_t)cur[j - 1]].cls : "first";
-          R.violation(string("C12/load-order/block-depends-on-others/") + defBlocks()[(size_t)cur[j]].cls + "/after-" + before,
+          R.violation(string("C12/load-order/block-depends-on-others/") + (g_blocksAsFiles ? "own-files/" : "one-file/") + defBlocks()[(size_t)cur[j]].cls + "/after-" + before,
                       "blocks loaded in order [" + orderStr(cur) + "]: " + blockText((size_t)cur[j]) + ": " + firstDiff(alone[(size_t)cur[j]], got),
-                      "k=blocks;o=" + orderStr(cur) + ";x=" + std::to_string(cur[j]));
+                      "k=blocks;o=" + orderStr(cur) + ";x=" + std::to_string(cur[j]) + (g_blocksAsFiles ? ";files=1" : ""));
         }
       }
     }
     if ((int)cur.size() >= k) return;
     for (size_t i = 0; i < N; i++) {
       if (alone[i].empty() || std::find(cur.begin(), cur.end(), (int)i) != cur.end()) continue;
+      if (defBlocks()[i].fileOnly && !g_blocksAsFiles) continue;
       cur.push_back((int)i); rec(); cur.pop_back();
     }
   };
@@ -1182,6 +1210,7 @@ static int replay(const string& c) {
     return 1;
   }
   if (m["k"] == "blocks") {
+    g_blocksAsFiles = m["files"] == "1";
     vector<int> order;
     { std::istringstream os(m["o"]); string t; while (std::getline(os, t, '.')) order.push_back(atoi(t.c_str())); }
     int x = atoi(m["x"].c_str());
